@@ -39,15 +39,18 @@ func NewHandlerWithoutLock(ctx context.Context, path string, defaultWaitTimeout 
 		openType: ForRead,
 	}
 
+	verifPoint("h.nolock.exists", h.path)
 	if !Exists(h.path) {
 		return h, NewNotExistError(fmt.Sprintf("file %s does not exist", h.path))
 	}
 
+	verifPoint("h.nolock.open", h.path)
 	fp, err := file.OpenToReadContext(tctx, retryDelay, h.path)
 	if err != nil {
 		return h, closeIsolatedHandler(h, err)
 	}
 	h.fp = fp
+	verifPoint("h.nolock.ready", h.path)
 	return h, nil
 }
 
@@ -60,6 +63,7 @@ func NewHandlerForRead(ctx context.Context, path string, defaultWaitTimeout time
 		openType: ForRead,
 	}
 
+	verifPoint("h.read.exists", h.path)
 	if !Exists(h.path) {
 		return h, NewNotExistError(fmt.Sprintf("file %s does not exist", h.path))
 	}
@@ -68,11 +72,13 @@ func NewHandlerForRead(ctx context.Context, path string, defaultWaitTimeout time
 		return h, closeIsolatedHandler(h, err)
 	}
 
+	verifPoint("h.read.open", h.path)
 	fp, err := file.OpenToReadContext(tctx, retryDelay, h.path)
 	if err != nil {
 		return h, closeIsolatedHandler(h, err)
 	}
 	h.fp = fp
+	verifPoint("h.read.ready", h.path)
 	return h, nil
 }
 
@@ -86,6 +92,7 @@ func NewHandlerForCreate(path string) (*Handler, error) {
 		openType: ForCreate,
 	}
 
+	verifPoint("h.create.exists", h.path)
 	if Exists(h.path) {
 		return h, NewAlreadyExistError(fmt.Sprintf("file %s already exists", h.path))
 	}
@@ -99,11 +106,13 @@ func NewHandlerForCreate(path string) (*Handler, error) {
 	}
 	h.lockFile = lockFile
 
+	verifPoint("h.create.file", h.path)
 	fp, err := file.Create(h.path)
 	if err != nil {
 		return h, closeIsolatedHandler(h, err)
 	}
 	h.fp = fp
+	verifPoint("h.create.ready", h.path)
 	return h, nil
 }
 
@@ -116,6 +125,7 @@ func NewHandlerForUpdate(ctx context.Context, path string, defaultWaitTimeout ti
 		openType: ForUpdate,
 	}
 
+	verifPoint("h.update.exists", h.path)
 	if !Exists(h.path) {
 		return h, NewNotExistError(fmt.Sprintf("file %s does not exist", h.path))
 	}
@@ -124,6 +134,7 @@ func NewHandlerForUpdate(ctx context.Context, path string, defaultWaitTimeout ti
 		return h, closeIsolatedHandler(h, err)
 	}
 
+	verifPoint("h.update.open", h.path)
 	fp, err := file.OpenToUpdateContext(tctx, retryDelay, path)
 	if err != nil {
 		return h, closeIsolatedHandler(h, err)
@@ -133,6 +144,7 @@ func NewHandlerForUpdate(ctx context.Context, path string, defaultWaitTimeout ti
 	if err := h.CreateControlFileContext(tctx, Temporary, retryDelay); err != nil {
 		return h, closeIsolatedHandler(h, err)
 	}
+	verifPoint("h.update.ready", h.path)
 	return h, nil
 }
 
@@ -164,6 +176,7 @@ func (h *Handler) close() error {
 	}
 
 	if h.fp != nil {
+		verifPoint("h.close.fp", h.path)
 		if err := file.Close(h.fp); err != nil {
 			return err
 		}
@@ -171,6 +184,7 @@ func (h *Handler) close() error {
 	}
 
 	if h.openType == ForCreate && Exists(h.path) {
+		verifPoint("h.close.rmcreated", h.path)
 		if err := os.Remove(h.path); err != nil {
 			return err
 		}
@@ -192,6 +206,7 @@ func (h *Handler) close() error {
 	h.rlockFile = nil
 
 	h.closed = true
+	verifPoint("h.close.done", h.path)
 	return nil
 }
 
@@ -201,6 +216,7 @@ func (h *Handler) commit() error {
 	}
 
 	if h.fp != nil {
+		verifPoint("h.commit.fp", h.path)
 		if err := file.Close(h.fp); err != nil {
 			return err
 		}
@@ -209,6 +225,7 @@ func (h *Handler) commit() error {
 
 	if h.openType == ForUpdate {
 		if h.tempFile.fp != nil {
+			verifPoint("h.commit.temp", h.path)
 			if err := file.Close(h.tempFile.fp); err != nil {
 				return err
 			}
@@ -216,11 +233,13 @@ func (h *Handler) commit() error {
 		}
 
 		if Exists(h.path) {
+			verifPoint("h.commit.remove", h.path)
 			if err := os.Remove(h.path); err != nil {
 				return err
 			}
 		}
 
+		verifPoint("h.commit.rename", h.path)
 		if err := os.Rename(h.tempFile.path, h.path); err != nil {
 			return err
 		}
@@ -231,6 +250,7 @@ func (h *Handler) commit() error {
 		h.tempFile = nil
 	}
 
+	verifPoint("h.commit.unlock", h.path)
 	if err := h.lockFile.Close(); err != nil {
 		return err
 	}
@@ -242,6 +262,7 @@ func (h *Handler) commit() error {
 	h.rlockFile = nil
 
 	h.closed = true
+	verifPoint("h.commit.done", h.path)
 	return nil
 }
 
@@ -253,6 +274,7 @@ func (h *Handler) closeWithErrors() error {
 	var errs []error
 
 	if h.fp != nil {
+		verifPoint("h.closew.fp", h.path)
 		if err := file.Close(h.fp); err != nil {
 			errs = append(errs, err)
 		} else {
@@ -261,6 +283,7 @@ func (h *Handler) closeWithErrors() error {
 	}
 
 	if h.openType == ForCreate && Exists(h.path) {
+		verifPoint("h.closew.rmcreated", h.path)
 		if err := os.Remove(h.path); err != nil {
 			errs = append(errs, err)
 		}
@@ -284,6 +307,7 @@ func (h *Handler) closeWithErrors() error {
 		h.rlockFile = nil
 	}
 
+	verifPoint("h.closew.done", h.path)
 	return NewForcedUnlockError(errs)
 }
 
